@@ -43,6 +43,7 @@ FIXED = [
  ("F26","C01","fbcc28a","'y ~ -0 + x' / 'a | +0' rejected when include_intercept=False"),
  ("F28","C12","2a16771","cc(x, df=2) (three knots): wrap-around entries overwritten, basis rows did not sum to one"),
  ("F29","C12","2bb9d12","cr/cc with constraints='center' and extrapolation='na': NaN constraint made every value NaN"),
+ ("F31","C05,C06","558fbc8","a list-valued (context) factor raised AttributeError/ValueError for output='sparse' only"),
  ("F30","C05","203a5c8","C(B) over a single-level column raised ValueError under output='narwhals'"),
  ("F27","C05,C08","8c2b710","C(B) on a categorical column lost the declared category order under the narwhals materializer"),
 ]
